@@ -100,11 +100,20 @@ class Enum:
         self.file, self.name, self.derive = file, name, derive
 
 
+class CastSites:
+    """self-generated obligations: every `<operand> as <Alias>` in the file (outside #[cfg(test)] modules) must be lossless
+    for operands up to `bound`. operands: operand text -> its type. A site whose operand is not listed -> undecided."""
+
+    def __init__(self, file, aliases, operands, bound='u32::MAX', props=()):
+        self.file, self.aliases, self.operands, self.bound, self.props = file, aliases, operands, bound, props
+
+
 class IdMacro:
     """rule E7: textual expansion of impl_id!(Name, Base) restricted to the members listed."""
 
-    def __init__(self, file, name, members=('new', 'as_usize', 'id'), index_for=('Vec',), specs=None):
+    def __init__(self, file, name, members=('new', 'as_usize', 'id'), index_for=('Vec',), specs=None, with_from=False):
         self.file, self.name, self.members, self.index_for, self.specs = file, name, members, index_for, specs or {}
+        self.with_from = with_from
 
 
 class Raw:
@@ -356,6 +365,7 @@ class Extractor:
         self.srcs = {}
         self.rewrites = []  # log: dict(rule, site, original, replacement)
         self.fn_texts = {}  # qual -> extracted text (for hashing)
+        self.aliases_done = set()
 
     def src(self, rel):
         if rel not in self.srcs:
@@ -707,6 +717,54 @@ class Extractor:
         self.log('E4', 'enum %s (%s)' % (edef.name, edef.file), 'derives/doc comments', 'dropped; pub')
         return res, src.line_of(toks[kw].s)
 
+    def cast_sites(self, cs):
+        src = self.src(cs.file)
+        toks, text, pair = src.toks, src.text, src.pair
+        # skip #[cfg(test)] mod tests { .. }
+        skip = []
+        for (s, kw, e) in split_items(src, 0, len(toks)):
+            if toks[kw].text == 'mod' and 'cfg(test)' in norm(text[toks[s].s:toks[kw].s]):
+                skip.append((s, e))
+        out = []
+        sites = []
+        for i, t in enumerate(toks):
+            if t.text != 'as' or i + 1 >= len(toks) or toks[i + 1].text not in cs.aliases:
+                continue
+            if any(a <= i < b for a, b in skip):
+                continue
+            # operand: walk back to the start of the unary expression
+            j = i - 1
+            depth = 0
+            while j >= 0:
+                tx = toks[j].text
+                if tx in CLOSE:
+                    j = pair[j] - 1
+                    continue
+                if tx in OPEN or tx in (',', '=', ';', '{', '}', '+', '-', '*', '/', '&&', '||', '==', '<', '>', 'return', '=>'):
+                    break
+                j -= 1
+            operand = text[toks[j + 1].s:toks[i - 1].e]
+            alias = toks[i + 1].text
+            line = src.line_of(t.s)
+            key = norm(operand)
+            if key not in {norm(k): v for k, v in cs.operands.items()}:
+                raise ExtractError('cast site %s:%d `%s as %s`: operand not in the sidecar table' % (cs.file, line, operand, alias))
+            oty = {norm(k): v for k, v in cs.operands.items()}[key]
+            name = 'cast_site_%s_L%d' % (re.sub(r'\W', '_', os.path.basename(cs.file)), line)
+            out.append('''/// %s:%d  `%s as %s`
+pub proof fn %s(x: %s)
+    requires x <= %s
+    ensures (x as %s) as int == x as int
+{
+}
+''' % (cs.file, line, operand.strip(), alias, name, oty, cs.bound, alias))
+            sites.append(dict(file=cs.file, line=line, operand=operand.strip(), alias=alias, obligation=name))
+        if not sites:
+            raise ExtractError('no cast sites found in %s' % cs.file)
+        self.cast_site_list = getattr(self, 'cast_site_list', []) + sites
+        self.log('GEN', cs.file, '%d cast sites' % len(sites), 'one losslessness obligation per site (operand <= %s)' % cs.bound)
+        return '\n'.join(out)
+
     # ------------------------------------------------------------------ impl_id! expansion (E7)
     def expand_id(self, m):
         src = self.src(m.file)
@@ -754,7 +812,9 @@ class Extractor:
         tmp.toks = lex(body)
         tmp.pair = match_brackets(tmp.toks)
         out = []
-        out.append('pub type %s = %s;' % (base_alias, base))
+        if base_alias not in self.aliases_done:
+            self.aliases_done.add(base_alias)
+            out.append('pub type %s = %s;' % (base_alias, base))
         for (s, kw, e) in split_items(tmp, 0, len(tmp.toks)):
             k = tmp.toks[kw].text
             if k == 'struct':
@@ -779,6 +839,11 @@ class Extractor:
                             ftxt = re.sub(r'->\s*([A-Za-z0-9_:<>$]+)\s*\{', lambda mo: '-> (r: %s)\n        %s\n    {' % (mo.group(1), sp), ftxt, count=1)
                         fns.append('    pub ' + quals + ftxt)
                     out.append('impl %s {\n%s\n}' % (m.name, '\n'.join(fns)))
+                elif m.with_from and hn == norm('impl From<%s> for %s' % (base_alias, m.name)):
+                    itxt = body[tmp.toks[kw].s:tmp.toks[e - 1].e]
+                    itxt = re.sub(r'->\s*Self\s*\{', '-> (r: Self)\n        ensures r.0 == index\n    {', itxt, count=1)
+                    out.append(itxt)
+                    out.append('impl vstd::std_specs::convert::FromSpecImpl<%s> for %s {\n    open spec fn obeys_from_spec() -> bool { true }\n    open spec fn from_spec(v: %s) -> Self { %s(v) }\n}' % (base_alias, m.name, base_alias, m.name))
                 else:
                     for cont in m.index_for:
                         want = norm('impl<T> std::ops::Index<%s> for %s' % (m.name, 'Vec<T>' if cont == 'Vec' else '[T]'))
@@ -956,6 +1021,8 @@ def build_unit(unit, repo, unit_dir, canary=False):
                 txt, line = ex.extract_struct(it)
                 txt = genericize(txt, gtypes)
                 out.add(txt, ('struct', it.name, it.file, line))
+            elif isinstance(it, CastSites):
+                out.add(ex.cast_sites(it), ('generated', 'cast sites of ' + it.file))
             elif isinstance(it, Enum):
                 txt, line = ex.extract_enum(it)
                 out.add(txt, ('struct', it.name, it.file, line))
